@@ -13,7 +13,7 @@ use std::collections::BTreeMap;
 fn outcome_key(o: &Value) -> String {
     // what C11 calls the outcome: acceptance, policy, failed checks, which error; query answers
     let mut k = json!({});
-    for f in ["r", "p", "pk", "failed", "kind", "queries"] {
+    for f in ["r", "p", "pk", "failed", "kind", "queries", "query_rows"] {
         if let Some(v) = o.get(f) {
             k[f] = v.clone();
         }
@@ -61,6 +61,7 @@ pub fn run_case(case: &Value, keys: &Keys, n: usize, seed: u64) -> Value {
                         o["iterations"] = json!(a2.iterations());
                         o["fact_count"] = json!(a2.fact_count());
                         o["queries"] = s_authz::run_queries(&c, &pool, keys, &mut a2);
+                        o["query_rows"] = s_authz::run_query_rows(&c, &pool, keys, &mut a2);
                         o
                     }
                     Err(e) => token_err_j(&e),
